@@ -14,9 +14,19 @@ namespace vk {
 
 struct Tape {
   const uint64_t* t; size_t n; size_t i = 0;
+  bool prng = false; uint64_t state = 0;
   Tape(const std::vector<uint64_t>& v) : t(v.data()), n(v.size()) {}
   Tape(const uint64_t* p, size_t n_) : t(p), n(n_) {}
-  uint64_t next() { return i < n ? t[i++] : 0; }
+  // After this call an exhausted tape continues with a generator seeded from the tape's own
+  // content (still a pure function of the tape) instead of zeros. Used for the auxiliary choices
+  // of a case (which reader, which mutation) so that short tapes do not always pick choice 0.
+  void continue_pseudo_randomly() { prng = true; state = fnv1a(t, n * sizeof(uint64_t)) ^ (0x9e3779b97f4a7c15ull * (i + 1)); }
+  uint64_t next() {
+    if (i < n) return t[i++];
+    if (!prng) return 0;
+    state = state * 6364136223846793005ull + 1442695040888963407ull;
+    return (state >> 11) ^ (state << 53);
+  }
   uint64_t below(uint64_t k) { return k ? next() % k : 0; }
   bool chance(uint64_t num, uint64_t den) { return below(den) < num; }  // 0 => true
   bool exhausted() const { return i >= n; }
